@@ -217,8 +217,9 @@ def fit_contract(form, skew=True):
 def all_contracts(tier):
     cs = [init_contract(), setter_contract("ps"), setter_contract("b"), setter_contract("p"),
           fit_contract("single", True), fit_contract("single", False)]
+    cs.append(fit_contract("list2", True))
     if tier != "quick":
-        cs.append(fit_contract("list2", True))
+        cs.append(fit_contract("list2", False))
     table = {(MOD, CLS + ".birth_range.setter"): Contract(MOD, CLS + ".birth_range.setter", None, summary=range_setter_summary("birth")),
              (MOD, CLS + ".pers_range.setter"): Contract(MOD, CLS + ".pers_range.setter", None, summary=range_setter_summary("pers"))}
     return cs, table
